@@ -245,7 +245,7 @@ Resume(q, c, tt) ==
 
 \* continue after a random pick: item i of the offered options
 AfterPick(q, c, i, tt) ==
-  LET c0 == [c EXCEPT !.sig = "run", !.opts = <<>>, !.pk = "none"] IN
+  LET c0 == [c EXCEPT !.sig = "run", !.opts = <<>>, !.pk = "none", !.out = <<>>] IN
   IF c.pk = "rand"
   THEN Run(q, Emit(c0, <<"rnd", c.opts[3], c.opts[1] + i - 1, tt>>), tt)
   ELSE LET it == c.opts[i] IN
